@@ -4,14 +4,22 @@ The real `LssMaster` (as wired by `Network.__init__`) runs on a synchronous fake
 `peers/ref_lss_slave.py` (CiA 305 slave written from the standard), optionally with lost answers
 and scripted extra frames, or against a purely scripted replier.  `time.sleep` inside
 `canopen.lss` is replaced from here (module attribute), `RESPONSE_TIMEOUT` is 0 on the instance.
+
+`lhist` histories add reply *latency*: the reaction to the k-th request is handed to `Network.notify`
+by a second thread after a stated fraction of `RESPONSE_TIMEOUT` (which is left at the class default,
+set on the instance, or set on the class); below the time-out it must be accepted, at or above it the
+request has met silence.
 """
+import threading
+import time as _time
+
 import canopen
 import canopen.lss as lss_mod
 
 from peers.ref_lss_slave import RefLssSlave
 
 ID = "C18"
-PROOF_MODULES = ["CanopenProofs.C18"]
+PROOF_MODULES = ["CanopenProofs.C18", "CanopenProofs.C18Latency"]
 GENERATED = ["Lss"]
 THEOREMS = [
     "Canopen.C18.fastscan_finds",
@@ -26,6 +34,13 @@ THEOREMS = [
     "Canopen.C18.selective_switch_confirmed",
     "Canopen.C18.selective_switch_other_address",
     "Canopen.C18.tables_match_cia305",
+    "Canopen.C18.latency_transparent",
+    "Canopen.C18.latency_transparent_history",
+    "Canopen.C18.fastscan_finds_latency",
+    "Canopen.C18.fastscan_silence_latency",
+    "Canopen.C18.services_latency",
+    "Canopen.C18.services_silence_latency",
+    "Canopen.C18.selective_switch_confirmed_latency",
 ]
 FINGERPRINT = [
     "canopen.lss:LssMaster.fast_scan",
@@ -59,7 +74,13 @@ TRUSTED = [
     "CPython struct.pack/unpack_from for '<B', '<BB', '<BI', '<I', '<H', '<BIBBB' and bytearray item "
     "assignment modelled (range check -> error, little-endian)",
     "the bus is synchronous: every frame a peer sends in reaction to a request is queued before the "
-    "master looks",
+    "master looks; with latency (`lhist`): the reaction to one request is one delivery, d ticks after "
+    "the request, obtained by the blocking get iff d < RESPONSE_TIMEOUT (Lss.awaitReply); what comes "
+    "later is on the bus when the next request goes out or in the queue once the call has returned "
+    "(the rig makes the master thread itself wait for it at those two points)",
+    "real time in `lhist` runs: latencies are 0..60 % or >= 150 % of the time-out, never closer to it; "
+    "a run in which this process overslept by more than 20 % of the time-out is repeated (up to 9 times, "
+    "the later ones with a longer time-out); if none is within 35 % the check ends with exit 2",
 ]
 ASSUMPTIONS = ["arguments are non-negative integers (negative / non-int arguments are not modelled "
                "and not generated)"]
@@ -68,7 +89,13 @@ RULE = ("ops `fs v p r s` (fast scan against a fresh unconfigured reference slav
         "reference slave with lost answers / extra frames, or a scripted replier); identities: every "
         "single bit set, every single bit cleared, all-zero, all-one, seeded; node ids and bit-timing "
         "indexes 0..255; scripted replies with every error code, every wrong specifier, silence, short "
-        "frames, stale and duplicate frames; non-trivial = at least one call returned a value")
+        "frames, stale and duplicate frames; `lhist tmo lats slave drops script stale action...`: the same "
+        "histories with reply latency -- the reaction to request k of the history is delivered by a second "
+        "thread after p % of RESPONSE_TIMEOUT (`k:p`, p in 0/20/50/60 = in time, 150/200 = too late, x = "
+        "never), RESPONSE_TIMEOUT being the class default (`d`), set on the instance (`i<ms>`) or on the "
+        "class (`c<ms>`); generated latency ops delay only reactions of at most one frame, to requests the "
+        "master waits on or that end their call, and have a too-late reaction only where the call ends with "
+        "it (elsewhere thread timing, not the library, would decide); non-trivial = at least one call returned a value")
 
 MASTER_TX = 0x7E5
 MASTER_RX = 0x7E4
@@ -145,7 +172,43 @@ def normalise(op):
         return ["hist", fresh(*a[1:5]), "-", "-", "-", "fs"]
     if a[0] == "thist":
         return ["hist"] + a[1:]
+    if a[0] == "lhist":
+        return ["hist"] + a[3:]
     return a
+
+
+# ---- reply latency (`lhist tmo lats …`) ---------------------------------------------------------
+def parse_tmo(s):
+    """`d` (class default untouched), `i<ms>` (instance attribute), `c<ms>` (class attribute)"""
+    if s == "d":
+        return ("d", None)
+    if len(s) > 1 and s[0] in "ic" and s[1:].isdigit() and s[1:].isascii() and int(s[1:]) > 0:
+        return (s[0], int(s[1:]) / 1000.0)
+    return None
+
+
+def parse_lats(s):
+    """`-` or `k:p,…` -> {request number: percent of the time-out, None = never}; the first entry of
+    a request number counts"""
+    if s == "-":
+        return {}
+    res = {}
+    for item in s.split(","):
+        k, sep, p = item.partition(":")
+        if not sep or not (k.isdigit() and k.isascii()):
+            return None
+        if p == "x":
+            v = None
+        elif p.isdigit() and p.isascii():
+            v = int(p)
+        else:
+            return None
+        res.setdefault(int(k), v)
+    return res
+
+
+def show_lats(lats):
+    return ",".join(f"{k}:{'x' if p is None else p}" for k, p in lats) if lats else "-"
 
 
 def mk_slave(desc):
@@ -236,6 +299,75 @@ class ThreadedBus(FakeBus):
         self.t.join(5)
 
 
+class _Jitter:
+    """a thread that does nothing but sleep 5 ms at a time and remembers by how much it overslept:
+    the measure of how far this process was from real time while an operation ran"""
+
+    def __init__(self):
+        self.worst = 0.0
+        self._stop = threading.Event()
+        self._t = threading.Thread(target=self._run, daemon=True)
+        self._t.start()
+
+    def _run(self):
+        while not self._stop.is_set():
+            t = _time.monotonic()
+            _time.sleep(0.005)
+            self.worst = max(self.worst, _time.monotonic() - t - 0.005)
+
+    def stop(self):
+        self._stop.set()
+        self._t.join(2)
+        return self.worst
+
+
+class LatencyBus(FakeBus):
+    """the reaction to the requests named in `lats` reaches `Network.notify` from a second thread,
+    `pct` percent of `tmo_s` after the request (None: never); other reactions inline.  Frames still
+    on their way when the next request comes (or when the call has returned: `settle`) arrive
+    first -- the master thread itself waits for them here, so nothing races."""
+
+    def __init__(self, peer, lats, tmo_s):
+        super().__init__(peer)
+        self.lats, self.tmo_s = lats, tmo_s
+        self.n = 0
+        self.timers = []
+        self.worst = 0.0         # largest lateness of a delivery against its plan
+
+    def settle(self):
+        ts, self.timers = self.timers, []
+        for t in ts:
+            t.join()
+
+    def _deliver(self, due, out):
+        self.worst = max(self.worst, _time.monotonic() - due)
+        for rid, rdata in out:
+            self.network.notify(rid, bytearray(rdata), 0.0)
+
+    def send(self, msg, timeout=None):
+        self.settle()
+        data = bytes(msg.data)
+        shown = show_frame((msg.arbitration_id, data))
+        if msg.is_extended_id:
+            shown += "!ext"
+        if msg.is_remote_frame:
+            shown += "!rtr"
+        if msg.dlc != len(data):
+            shown += f"!dlc{msg.dlc}"
+        out = self.peer.exchange(msg.arbitration_id, data)
+        self.log.append((shown, out))
+        k, self.n = self.n, self.n + 1
+        if k not in self.lats:
+            for rid, rdata in out:
+                self.network.notify(rid, bytearray(rdata), 0.0)
+        elif self.lats[k] is not None and out:
+            delay = self.lats[k] / 100.0 * self.tmo_s
+            t = threading.Timer(delay, self._deliver, args=(_time.monotonic() + delay, out))
+            t.daemon = True
+            self.timers.append(t)
+            t.start()
+
+
 def show_ret(r):
     if r is None:
         return "ok"
@@ -280,6 +412,8 @@ def do_call(m, act):
 
 
 def run_impl(op):
+    if op.startswith("lhist "):
+        return run_latency(op)
     a = normalise(op)
     if a[0] != "hist" or len(a) < 5:
         return "bad-op"
@@ -293,6 +427,10 @@ def run_impl(op):
     m = net.lss
     if not threaded:
         m.RESPONSE_TIMEOUT = 0      # a frame that is not there yet never comes on a synchronous bus
+    return run_history(a, net, bus, m, slave, bus.settle if threaded else None)
+
+
+def run_history(a, net, bus, m, slave, settle):
     for f in parse_frames(a[4]):
         net.notify(f[0], bytearray(f[1]), 0.0)
     toks = []
@@ -311,12 +449,90 @@ def run_impl(op):
             return "bad-op"
         except Exception:
             res = "other"
-        if threaded:
-            bus.settle()
+        finally:
+            if settle:
+                settle()
         ex = ",".join(f"{req}>{show_frames(out)}" for req, out in bus.log[n:])
         toks.append(f"{res}[{ex}]")
     bus.shutdown()
     return " ".join(toks) + " # " + (slave.show() if slave is not None else "none")
+
+
+JITTER_SHARE = 0.2      # of the time-out: a run in which this process overslept by more is repeated
+JITTER_LIMIT = 0.35     # ... and beyond this no run says anything about the implementation
+LATENCY_TRIES = 9
+
+
+def default_timeout():
+    """the class default as the tree under test documents it ('max time in seconds to wait')"""
+    v = getattr(lss_mod.LssMaster, "RESPONSE_TIMEOUT", None)
+    if isinstance(v, bool) or not isinstance(v, (int, float)) or not 0 < v <= 10:
+        return None
+    return float(v)
+
+
+def run_latency(op):
+    """Latencies keep 40 % of the time-out away from it, so a run counts when the process was never
+    further than 20 % of the time-out from real time (`_Jitter`, lateness of the deliveries).  Otherwise
+    it is repeated: three times as it is, then with a time-out set twice and four times as long (the
+    op's `i`/`c` milliseconds are nominal; the class default stays what it is).  When the machine is
+    too loaded even for that, this is an infrastructure failure (exit 2), not a finding."""
+    a = op.split(" ")
+    if len(a) < 7:
+        return "bad-op"
+    tmo, lats = parse_tmo(a[1]), parse_lats(a[2])
+    if tmo is None or lats is None:
+        return "bad-op"
+    best = None
+    for n in range(LATENCY_TRIES):
+        stretch = 1 if tmo[0] == "d" else (1, 2, 4)[n // 3]
+        out, worst, tmo_s = run_latency_once(["hist"] + a[3:], (tmo[0], tmo[1] and tmo[1] * stretch), lats)
+        if tmo_s is None:
+            return out
+        if best is None or worst / tmo_s < best[0]:
+            best = (worst / tmo_s, out)
+        if best[0] <= JITTER_SHARE:
+            break
+        _time.sleep(0.3)
+    if best[0] > JITTER_LIMIT:
+        print(f"INFRASTRUCTURE: C18 latency operation {op!r}: in {LATENCY_TRIES} runs this process was never "
+              f"closer than {best[0]:.2f} time-outs to real time (machine overloaded); no verdict", flush=True)
+        raise SystemExit(2)
+    return best[1]
+
+
+def run_latency_once(a, tmo, lats):
+    _patch()
+    kind, seconds = tmo
+    if kind == "d":
+        seconds = default_timeout()
+        if seconds is None:
+            return f"no-default-timeout:{getattr(lss_mod.LssMaster, 'RESPONSE_TIMEOUT', None)!r}", 0.0, None
+    slave = mk_slave(a[1])
+    peer = PeerSide(slave, unnl(a[2]), parse_script(a[3]))
+    bus = LatencyBus(peer, lats, seconds)
+    cls = lss_mod.LssMaster
+    had = "RESPONSE_TIMEOUT" in cls.__dict__
+    old = cls.__dict__.get("RESPONSE_TIMEOUT")
+    if kind == "c":
+        cls.RESPONSE_TIMEOUT = seconds
+    jitter = _Jitter()
+    try:
+        net = canopen.Network(bus)
+        bus.network = net
+        m = net.lss
+        if kind == "i":
+            m.RESPONSE_TIMEOUT = seconds
+        out = run_history(a, net, bus, m, slave, bus.settle)
+    finally:
+        bus.settle()
+        worst = max(jitter.stop(), bus.worst)
+        if kind == "c":
+            if had:
+                cls.RESPONSE_TIMEOUT = old
+            else:
+                del cls.RESPONSE_TIMEOUT
+    return out, worst, seconds
 
 
 # ---- independent oracle ----------------------------------------------------------------------
@@ -439,6 +655,29 @@ def check_fastscan_trace(ex):
         return (None if len(ex) == i + 1 else "frames sent after a zero-length answer"), None
 
 
+def as_seen_by_master(calls, lats):
+    """What is on 0x7E4 while the master waits for the answer to each request, given the latency of
+    each reaction (percent of RESPONSE_TIMEOUT; None = lost): a reaction below 100 is there in time,
+    one at or above 100 is not -- it is on the bus when the next request of the same call goes out,
+    or lands in the queue after the call has returned (where the next call must not take it for an
+    answer)."""
+    k, res_calls = 0, []
+    for call in calls:
+        if call is None:
+            res_calls.append(None)
+            continue
+        res, ex = call
+        carried, seen = [], []
+        for req, frames in ex:
+            p = lats[k] if k in lats else 0
+            in_time = p is not None and p < 100
+            seen.append((req, carried + (list(frames) if in_time else [])))
+            carried = list(frames) if (p is not None and not in_time) else []
+            k += 1
+        res_calls.append((res, seen))
+    return res_calls
+
+
 def viol(kind, tag, text):
     return f"[{kind}/{tag}] {text}"
 
@@ -450,11 +689,20 @@ def oracle(op, out):
     if out.startswith("HARNESS-RAISED") or out == "bad-op":
         return viol("harness", "raised", out)
     slave_desc, drops, script = a[1], unnl(a[2]), parse_script(a[3])
-    conformant_peer = slave_desc != "-" and not drops and not any(script)
+    lats = {}
+    if op.startswith("lhist "):
+        if out.startswith("no-default-timeout"):
+            return viol("tmo", "default", f"LssMaster.RESPONSE_TIMEOUT is not a time in seconds: {out}")
+        lats = parse_lats(op.split(" ")[2])
+    # in time = strictly below RESPONSE_TIMEOUT; at or above it the request has met silence
+    punctual = all(p is not None and p < 100 for p in lats.values())
+    conformant_peer = slave_desc != "-" and not drops and not any(script) and punctual
     calls, final = parse_out(out)
     acts = a[5:]
     if len(calls) != len(acts):
         return viol("harness", "shape", "output does not have one token per action")
+    if lats:
+        calls = as_seen_by_master(calls, lats)
     shadow = mk_slave(slave_desc)          # replayed reference slave: state before each call
     for act, call in zip(acts, calls):
         if call is None:
@@ -573,6 +821,10 @@ def classify(op, out):
     a = normalise(op)
     acts = a[5:]
     peer = "noslave" if a[1] == "-" else "slave"
+    if op.startswith("lhist "):
+        lats = parse_lats(op.split(" ")[2]) or {}
+        late = any(p is None or p >= 100 for p in lats.values())
+        peer = "lat-" + op.split(" ")[1][0] + ("-late:" if late else ":") + peer
     if a[2] != "-":
         peer += "+loss"
     if a[3] != "-":
@@ -595,6 +847,25 @@ def shrink_candidates(op):
             for c in (0, vals[i] & (vals[i] - 1), vals[i] >> 1):
                 if c != vals[i]:
                     yield "fs " + " ".join(str(c if j == i else vals[j]) for j in range(4))
+        return
+    if a[0] == "lhist":
+        # every candidate costs real time: few of them, the cheap ones first
+        head, rest = a[:3], a[3:]
+        acts = rest[4:]
+        for i in range(len(acts)):
+            if len(acts) > 1:
+                yield " ".join(head + rest[:4] + acts[:i] + acts[i + 1:])
+        lats = [] if a[2] == "-" else a[2].split(",")
+        for i in range(len(lats)):
+            yield " ".join(a[:2] + [",".join(lats[:i] + lats[i + 1:]) or "-"] + rest)
+        if rest[0] != "-":
+            f = unnl(rest[0])
+            if any(f[:4]):
+                g = [0, 0, 0, 0] + f[4:]
+                acts2 = [x.replace(nl(f[:4]), nl(g[:4])) for x in acts]
+                yield " ".join(head + [nl(g)] + rest[1:4] + acts2)
+        if a[1] != "i300":
+            yield " ".join([a[0], "i300"] + a[2:])
         return
     if a[0] == "hist":
         acts = a[5:]
@@ -760,6 +1031,7 @@ def gen_ops(tier, rng):
     yield f"hist - - -/-/-/7e3.4400000000000000 - sel:1,2,3,4"
     yield f"hist - - - - idr:1,2,3,4,5,{1 << 32} idr:{1 << 32},2,3,4,5,6 sel:{1 << 32},2,3,4 sel:1,2,3,{1 << 32}"
     yield from threaded_ops(tier)
+    yield from latency_ops(tier, rng)
     # -- 5. seeded histories
     for _ in range(12000 if thorough else 150):
         idn = tuple(split128(rng.getrandbits(128)))
@@ -821,6 +1093,100 @@ def threaded_ops(tier):
         yield "thist - - - - fs inid"
 
 
+ACK = "7e4.4f00000000000000"
+# the probes of a scan are numbered 0 (reset), then 33 per part: 32 bits from the top, confirmation
+IN_TIME = (0, 20, 50)
+
+
+def probe(part, bit):
+    """request number, within one fast scan, of the probe of `bit` of identity part `part`"""
+    return 1 + 33 * part + (31 - bit)
+
+
+def confirm(part):
+    return 1 + 33 * part + 32
+
+
+def lat(entries):
+    return show_lats(sorted(dict(entries).items()))
+
+
+def latency_ops(tier, rng):
+    """Real waits: an unanswered request costs one whole time-out, so identities have few 1 bits and
+    the time-out is 0.3 s where it is set.  Quick: about 12 s."""
+    thorough = tier == "thorough"
+    z = fresh(0, 0, 0, 0)
+    # -- fast scan, every answer in time: instance / class / default time-out
+    yield f"lhist i300 {lat([(0, 20), (1, 50), (2, 0), (33, 20), (34, 50), (66, 50), (132, 50)])} {z} - - - fs inid"
+    yield (f"lhist d {lat([(0, 50), (probe(0, 30), 20), (confirm(1), 60), (probe(3, 1), 50)])} "
+           f"{fresh(1 << 31, 0, 0, 1)} - - - fs")
+    yield (f"lhist c300 {lat([(0, 0), (probe(1, 1) - 1, 50), (probe(1, 1) + 1, 20), (confirm(3), 50)])} "
+           f"{fresh(0, 2, 0, 0)} - - - fs iaddr:91")
+    yield f"lhist i1000 {lat([(0, 60)])} {z} - - - fs"          # longer than the class default: 0.6 s is in time
+    # -- the services, in time
+    yield (f"lhist i300 {lat([(3, 50), (4, 20), (5, 50), (6, 20), (7, 50), (8, 20), (9, 50)])} {fresh(1, 2, 3, 4)} "
+           f"- - - sel:1,2,3,4 cnid:5 cbt:3 store inid iaddr:90 iaddr:93")
+    yield (f"lhist c300 {lat([(0, 50), (1, 20), (2, 50), (3, 20)])} - - "
+           f"{rep(0x5E, 7)}/{rep(0x11, 1)}/{rep(0x12, 0)}/{rep(0x17, 0)} - inid cnid:5 cnid:5 store")
+    # -- too late or never: silence, and the late frame is not the answer to the next request
+    yield (f"lhist i300 {lat([(4, 150), (5, 200), (6, None)])} {fresh(1, 2, 3, 4)} - - - "
+           f"sel:1,2,3,4 cnid:5 inid store inid")
+    yield f"lhist i300 {lat([(0, 150)])} {fresh(0, 0, 0, 1)} - - - fs fs"
+    yield f"lhist i300 {lat([(3, 150)])} {fresh(1, 2, 3, 4)} - - - sel:1,2,3,4 inid"
+    yield f"lhist c300 {lat([(0, 50), (1, 150)])} - - {rep(0x5E, 7)}/{rep(0x5E, 9)} - inid inid"
+    yield "lhist i300 - - - - - fs inid"                          # nobody there: two whole time-outs
+    # -- seeded
+    modes = ["i300", "c300", "d"]
+    for n in range(24 if thorough else 3):
+        ones = rng.sample(range(128), rng.choice([0, 1, 1, 2]))
+        ident = split128(sum(1 << b for b in ones))
+        ks = rng.sample(range(133), 7)
+        mode = modes[n % 3] if n % 3 != 2 or len(ones) < 2 else "i300"
+        pcts = IN_TIME + ((60,) if mode == "d" else ())
+        yield (f"lhist {mode} {lat([(0, rng.choice(pcts))] + [(k, rng.choice(pcts)) for k in ks])} "
+               f"{fresh(*ident)} - - - fs")
+    for n in range(8 if thorough else 1):
+        idn = split128(rng.getrandbits(128))
+        acts = [f"sel:{nl(idn)}"] + [rng.choice([f"cnid:{rng.randrange(256)}", f"cbt:{rng.randrange(256)}", "store",
+                                                  "inid", f"iaddr:{rng.choice([90, 91, 92, 93])}"])
+                                     for _ in range(5)]
+        entries = [(k, rng.choice(IN_TIME)) for k in range(3, 9)]
+        if rng.random() < 0.5:
+            j = rng.randrange(1, 6)
+            entries[j] = (entries[j][0], rng.choice([150, 200, None]))
+        sd = slave_desc(idn, store_err=rng.choice([0, 0, 1, 2]))
+        yield f"lhist {modes[n % 2]} {lat(entries)} {sd} - - - " + " ".join(acts)
+    if not thorough:
+        return
+    # -- every part, the top / a middle / the bottom bit: the one unanswered probe, its neighbours delayed
+    for part in range(4):
+        for bit in (31, 16, 1, 0):
+            ident = [0, 0, 0, 0]
+            ident[part] = 1 << bit
+            k = probe(part, bit)
+            yield (f"lhist i300 {lat([(0, 20), (k - 1, 50), (k, 50), (k + 1, 50), (confirm(part), 20)])} "
+                   f"{fresh(*ident)} - - - fs")
+    # -- every request of a scan delayed a little (all 133, 0 % and 20 %)
+    yield f"lhist i300 {lat([(k, 20 if k % 8 == 0 else 0) for k in range(133)])} {z} - - - fs"
+    yield f"lhist d {lat([(k, 0) for k in range(133)])} {fresh(0, 0, 1 << 7, 0)} - - - fs sg:0 fs"
+    # -- the confirmation of each part too late: the scan fails there
+    for part in range(4):
+        yield f"lhist i300 {lat([(confirm(part), 150)])} {z} - - - fs"
+    # -- every confirmed service: in time at each fraction, too late, never; time-out on instance / class / default
+    svc = [("cnid:7", 4), ("cbt:2", 4), ("store", 4), ("inid", 4), ("iaddr:90", 4), ("iaddr:93", 4)]
+    for mode in ("i300", "c300", "d"):
+        for call, k in svc:
+            for p in (IN_TIME + (60,) if mode == "d" else IN_TIME):
+                yield f"lhist {mode} {lat([(3, p), (k, p)])} {fresh(1, 2, 3, 4)} - - - sel:1,2,3,4 {call}"
+        for call, k in svc[:3 if mode != "i300" else 6]:
+            for p in (150, None):
+                yield f"lhist {mode} {lat([(k, p)])} {fresh(1, 2, 3, 4)} - - - sel:1,2,3,4 {call} inid"
+    yield f"lhist i300 {lat([(3, 50)])} {fresh(1, 2, 3, 4)} - - - sel:1,2,3,5 sel:1,2,3,4 inid"
+    yield f"lhist i300 {lat([(0, 200)])} {slave_desc((1, 2, 3, 4), config=1)} - - - inid inid"
+    yield f"lhist i300 {lat([(0, 20)])} {fresh(5, 6, 7, 8)} - - - idn fs"
+    yield f"lhist i700 {lat([(0, 60), (1, 150)])} - - {rep(0x5E, 7)}/{rep(0x5E, 9)} - inid inid"
+
+
 CORPUS = [
     "fs 305419896 2596069104 1 2147483648",
     "hist - - - - fs",
@@ -828,6 +1194,9 @@ CORPUS = [
     "hist - - 7e4.1101000000000000 - cnid:5",
     "hist - - 7e4.1200000000000000 - cnid:5",
     "hist - - - - store",
+    # a slave that needs a fifth / half of the time-out for its answers (C18_30D7)
+    "lhist d 0:20,1:20,2:50,33:20,132:50 1,0,0,0,0,0,255,255,0,0,0 - - - fs",
+    "lhist i300 0:50,32:20,33:50 0,0,0,0,0,0,255,255,0,0,0 - - - fs inid",
 ]
 
 LEVEL_TEXT = ("Lean 4 theorems: for every 128-bit LSS address, every prior fast-scan position of the slave and every "
@@ -837,8 +1206,10 @@ LEVEL_TEXT = ("Lean 4 theorems: for every 128-bit LSS address, every prior fast-
               "every request any API call emits, against any peer whatsoever, is an 8-byte CiA 305 frame on 0x7E5 with "
               "the standard specifier and little-endian fields; configure/store/inquire return the answer or LssError "
               "for every error code, wrong specifier or silence; selective switch to the slave's own address is "
-              "confirmed; model tied to the code by regenerated constants and a differential run against an "
-              "independent Python CiA 305 slave")
+              "confirmed; all of it unchanged by reply latency below RESPONSE_TIMEOUT (simulation through every "
+              "function of the model, any peer, any time-out), an answer at or after the time-out is silence; "
+              "model tied to the code by regenerated constants and a differential run against an "
+              "independent Python CiA 305 slave, with real waits where latency is in play")
 LEVEL_NOTE = ("trusted: Lean kernel + propext/Classical.choice/Quot.sound; my reading of CiA 305 (written twice: Lean "
               "spec and Python peer); queue.Queue as FIFO and the time-out as 'no frame queued'; time.sleep pacing is "
               "outside the model; the correspondence is only as strong as its generator (distribution in the evidence)")
